@@ -641,6 +641,16 @@ pub fn main(args: &[String]) {
                 ev[k] = v.clone();
             }
             ev["reader"] = rt.block_on(reader_view(a));
+            // what the real `bita info` prints about this archive (whoever wrote it)
+            if !cli.bita.is_empty() {
+                let ip = format!("{}/info_{}.cba", cli.dir, tag);
+                std::fs::write(&ip, a).unwrap();
+                if let Ok(o) = Command::new(&cli.bita).args(["info", &ip]).env("RUST_BACKTRACE", "0").output() {
+                    ev["info_exit"] = json!(o.status.code().unwrap_or(-1));
+                    ev["info"] = crate::clone_l1::parse_info(&(String::from_utf8_lossy(&o.stdout).to_string() + "\n" + &String::from_utf8_lossy(&o.stderr)));
+                }
+                let _ = std::fs::remove_file(&ip);
+            }
         } else {
             ev["decoded"] = json!(false);
         }
